@@ -1,6 +1,6 @@
 // C18: Value::GroupBy on the REAL Value<char>: an array of NOBJ objects built through the public API; each object has the
 // grouping key "y" and one other member "m" in an order that is concrete per query (ORD bit i = 1: "m" first in object i);
-// the grouping-key VALUES and the other members are symbolic.  Oracle: the reference partition computed in the harness.
+// the grouping-key values follow a concrete pattern per query (which objects share a key); the other members are symbolic.  Oracle: the reference partition computed in the harness.
 #include "Value.hpp"
 #include "vf.h"
 using namespace Qentem;
@@ -11,10 +11,15 @@ typedef Value<char> V;
 #ifndef ORD
 #define ORD 0
 #endif
+#ifndef PAT
+#define PAT 0
+#endif
 #ifndef KIND
 #define KIND 0     /* 0: one-unit string keys, 1: boolean keys, 2: null / string mix, 3: one-digit unsigned keys */
 #endif
 
+// No string -> number coercion is part of grouping; the scanner (and the big-integer kernels behind it) is cut out and asserted unreachable.
+extern "C" unsigned char stub_no_strtonum(QNumber64 *, const char *, unsigned *, unsigned) { vf_assert(false, 99); return 0; }
 struct KeyVal { unsigned kind; char s; bool b; unsigned d; };     // model of a grouping-key value
 static void set_key(V &o, const KeyVal &k) {
 #if KIND == 0
@@ -49,13 +54,16 @@ static bool same_text(const char *a, unsigned la, const char *b, unsigned lb) {
 
 extern "C" void h_group() {
     KeyVal k[NOBJ]; unsigned long long m[NOBJ];
+    // grouping-key values: CONCRETE per query (PAT gives the group id of every object, base 3), because a symbolic key text makes the
+    // hash-table shape symbolic and every ~Value/reset on it explodes (measured: no verdict in 300 s); the other members stay symbolic
     for (unsigned i = 0; i < NOBJ; i++) {
-        k[i].s = (char)vf_u8(); k[i].b = vf_u8() & 1; k[i].d = vf_u8() % 10; m[i] = vf_u64();
-#if KIND == 2
-        vf_assume(!(k[i].s == 'n'));     // a one-unit string never collides with the text "null"
-#endif
+        unsigned gsel = (PAT / (i == 0 ? 1 : (i == 1 ? 3 : 9))) % 3;
+        k[i].s = char('a' + gsel); k[i].b = (gsel & 1) != 0; k[i].d = 1 + gsel; m[i] = vf_u64();
     }
-    V arr;
+    // the source array and the result live in raw storage and are never destroyed: the symbolic SHAPE of the result would make
+    // the mutually recursive ~Value group explode, and release-exactly-once is C16's subject, not this property's
+    alignas(V) static char raw[3 * sizeof(V)];
+    V &arr = *new (&raw[0]) V;
     for (unsigned i = 0; i < NOBJ; i++) {
         V o;
         if ((ORD >> i) & 1) { o["m"] = SizeT64(m[i]); set_key(o, k[i]); }
@@ -63,7 +71,7 @@ extern "C" void h_group() {
         arr += static_cast<V &&>(o);
     }
     vf_assert(arr.IsArray() && arr.Size() == NOBJ, 1);
-    V g;
+    V &g = *new (&raw[sizeof(V)]) V;
     bool ok = arr.GroupBy(g, "y", SizeT{1});
     vf_assert(ok && g.IsObject(), 2);
     // reference partition: group of object i = index of the first object with the same key text
